@@ -495,6 +495,64 @@ def check_C04(tier, seed):
                     extra_cov={"policies": policies})
 
 
+def real_class_programs(pid, regs, rng, out, nprog, tier, per=8):
+    """gen harness: inheritance graphs as real C++ hierarchies, registered by register_classes statements
+    that split the graph at random (every direct edge inside some statement); probe method per class,
+    a two-parameter method with random definitions; logs validated by TraceYomm2."""
+    sys_path_gen()
+    import gen
+    import lattice_emit as LE
+    graphs = {}
+    for r in regs:
+        graphs[tuple(sorted((e[0], e[1]) for e in r["edges"]))] = 1
+    graphs = sorted(graphs)
+    sources = {}
+    for pi in range(nprog):
+        scen = []
+        for si in range(per):
+            idx = si
+            off = 10 * (si + 1)
+            edges0 = rng.choice(graphs)
+            n = 4
+            classes = [off + c for c in range(1, n + 1)]
+            edges = [(off + d, off + b) for d, b in edges0]
+            anc = S.anc_closure(edges, classes)
+            # statements: random covers; every edge inside at least one statement, every class somewhere
+            statements = []
+            for d, b in edges:
+                if not any(d in st and b in st for st in statements) or rng.random() < 0.2:
+                    extra = [c for c in classes if rng.random() < 0.35]
+                    statements.append(sorted(set([d, b] + extra), key=lambda x: rng.random()))
+            for c in classes:
+                if not any(c in st for st in statements):
+                    statements.append([c])
+            rng.shuffle(statements)
+            methods = [(i + 1, [c]) for i, c in enumerate(classes)]
+            defs = []
+            for m, vp in methods:
+                for d, c in enumerate([x for x in classes if vp[0] in anc[x] and rng.random() < 0.6]):
+                    defs.append((m, d, [c]))
+            vp2 = [rng.choice(classes), rng.choice(classes)]
+            methods.append((n + 1, vp2))
+            for d in range(rng.randrange(0, 4)):
+                defs.append((n + 1, d, [rng.choice([x for x in classes if v in anc[x]]) for v in vp2]))
+            # distinct definitions per method only (two define_method with the same signature would not compile)
+            seen, dd = set(), []
+            for m, d, vp in defs:
+                if (m, tuple(vp)) not in seen:
+                    seen.add((m, tuple(vp)))
+                    dd.append((m, d, vp))
+            scen.append((idx, classes, edges, statements, methods, dd))
+        name = "real%d" % pi
+        sources[name] = LE.program(name, scen)
+    res = gen.build_and_run(sources, extra=(["-DNDEBUG"] if tier == "quick" else []))
+    F.validate_program_outputs(pid, res, sources, out, pid.lower() + "-real", "TraceYomm2_report.cfg" if pid == "C17" else "TraceYomm2_dispatch.cfg", "TraceYomm2.tla")
+    if tier == "thorough":
+        res2 = gen.build_and_run({k + "_dbg": v.replace('\\"script\\":\\"%s\\"' % k, '\\"script\\":\\"%s_dbg\\"' % k) for k, v in sources.items()})
+        F.validate_program_outputs(pid, res2, {k + "_dbg": v for k, v in sources.items()}, out, pid.lower() + "-real-dbg", "TraceYomm2_dispatch.cfg", "TraceYomm2.tla")
+    out.notes.append("%d generated programs with real class hierarchies (x %d scenarios each)" % (len(sources), per))
+
+
 def check_C08(tier, seed):
     TCFG = "TraceYomm2_dispatch.cfg"
     t0 = time.time()
@@ -513,8 +571,11 @@ def check_C08(tier, seed):
         out.model_runs.append({"module": "GenLat.tla", "cfg": "GenLat_P5anyNoEmit.cfg", "generated": rt.generated, "distinct": rt.distinct, "ok": rt.ok})
         if not rt.ok:
             raise F.ModelViolation("GenLat.tla", "GenLat_P5anyNoEmit.cfg", rt.out)
+    regs_p4 = []
     for cfg, n, reps in universes:
         regs = F.gen_registries(cfg, out, module="GenLat.tla")
+        if n == 4:
+            regs_p4 = regs
         scs = []
         for i, r in enumerate(regs):
             scs.append(lat_script(r, n, "%s-%d" % (cfg.replace(".cfg", ""), i), policies, rng, "all", False, True, ("T", "X", "L")))
@@ -525,6 +586,9 @@ def check_C08(tier, seed):
     scs = random_scripts(rng, 200 if tier == "quick" else 4000, policies, ("T", "X", "L"), max_n=12,
                          style=lambda r: r.choice(["direct", "random", "random", "complete+self"]), orders=2)
     F.execute_and_validate("C08", exe, scs, out, "c08-rnd", TCFG)
+    # the same with REAL classes through the template front end (register_classes -> inheritance_map ->
+    # class_declaration): graphs from the TLC universe, split over several registration statements
+    real_class_programs("C08", regs_p4, rng, out, 12 if tier == "quick" else 120, tier)
 
     def drop_base(ev):
         if ev["bases"]:
@@ -1546,6 +1610,36 @@ def check_C13(tier, seed):
     policies = ["stdd", "stdr", "stdmap"]
     scs = [encode_script(rng, "enc-%d" % i, policies) for i in range(500 if tier == "quick" else 10000)]
     F.execute_and_validate("C13", exe, scs, out, "c13", TCFG)
+    # "source text that the supported compilers accept": the emitted text of a sample of scripts is compiled
+    # (declaration + initialisers) by g++ and clang++; a rejected text is a violation
+    nsample = 6 if tier == "quick" else 60
+    sample = scs[:nsample]
+    one = [S.Script(s.sid, [["stdr"]]) for s in sample]
+    for a, b in zip(one, sample):
+        a.lines = b.lines
+    d = C.scratch()
+    spath = os.path.join(d, "c13-dump.script")
+    with open(spath, "w") as f:
+        f.write("".join(s.text() for s in one))
+    rc, dump = C.sh([exe, spath, os.path.join(d, "c13-dump.ndjson")], timeout=600, env={"DYN_DUMP_ENC": "1"})
+    texts = [t for t in dump.split("    static struct {")[1:]]
+    compiled = 0
+    for i, t in enumerate(texts):
+        tu = ("#include <cstdint>\nnamespace yorel { namespace yomm2 { template<class P, class D> void decode_dispatch_data(D&) {} } }\n"
+              "struct stdr {};\nvoid emitted_%d() {\n    static struct {%s\n}\n" % (i, t))
+        src = os.path.join(d, "c13-emitted-%d.cpp" % i)
+        with open(src, "w") as f:
+            f.write(tu)
+        for cxx in ("g++", "clang++"):
+            rc, msg = C.sh([cxx, "-std=c++17", "-fsyntax-only", "-w", src], timeout=120)
+            compiled += 1
+            if rc != 0:
+                rdir = C.save_replay("C13", "emitted-%d-%s" % (i, cxx.replace("+", "p")), {"emitted.cpp": tu, "compiler.txt": msg[-3000:]})
+                rej = C.Rejection(["{}\n"], 1, "emitted-%d" % i, [cxx])
+                out.rejections.append((rej, rdir, None))
+    out.notes.append("%d compilations of emitted dispatch data (g++ and clang++ -fsyntax-only), %d texts" % (compiled, len(texts)))
+    if not texts:
+        raise C.ToolFailure("no emitted text captured")
     if tier == "thorough":
         asan = C.build_dyn(san="address")
         F.execute_and_validate("C13", asan, scs[:2000], out, "c13-asan", TCFG)
